@@ -666,6 +666,33 @@ theorem C10_dataset_row_amount (dflt : ℚ) (r : DoseRow) (e : Event) (t a : ℚ
   simp only at hd ⊢
   exact ⟨by field_simp, trivial⟩
 
+/-- **Only the last dataset counts.** After any sequence of successful `set_data` calls on one
+    controller the regimens are those of the last dataset alone — in particular `None` when the
+    last dataset carries no dose information, whatever was set before. -/
+theorem C10_set_data_history (dflt : ℚ) (ds : List (Option (List (String × List DoseRow))))
+    (d : Option (List (String × List DoseRow))) (s s' : Option (List (String × List Event)))
+    (h : setDataRun dflt s (ds ++ [d]) = .ok s') :
+    setDataRegimens dflt none d = .ok s' ∧ (d = none → s' = none) := by
+  have hind : ∀ p p', setDataRegimens dflt p d = setDataRegimens dflt p' d := by
+    intro p p'; cases d <;> rfl
+  induction ds generalizing s with
+  | nil =>
+    simp only [List.nil_append, setDataRun] at h
+    cases hs : setDataRegimens dflt s d with
+    | error e => rw [hs] at h; cases h
+    | ok s1 =>
+      rw [hs] at h; simp only [setDataRun] at h
+      injection h with h; subst h
+      refine ⟨by rw [hind none s, hs], ?_⟩
+      intro hd; subst hd
+      simp only [setDataRegimens] at hs
+      injection hs with hs; exact hs.symm
+  | cons o os ih =>
+    simp only [List.cons_append, setDataRun] at h
+    cases hs : setDataRegimens dflt s o with
+    | error e => rw [hs] at h; cases h
+    | ok s1 => rw [hs] at h; exact ih s1 h
+
 /-! ## several events: the partial statement and the overlap counterexample -/
 
 /-- for single events that do not overlap (each is over when the next one starts) the pacing
